@@ -19,7 +19,7 @@ git -C $WT checkout -q -- . ; git -C $WT checkout -q --detach $(git -C /repo rev
 git -C $WT apply "$S/patch.diff" || { echo "PATCH-DOES-NOT-APPLY-TO-HEAD" | tee -a "$log"; exit 1; }
 cd /verif
 for pid in "$@"; do
-  VERIF_REPO=$WT VERIF_CACHE=/var/tmp/cache-main ./check $pid --tier quick > "$out/check-$pid.log" 2>&1; rc=$?
+  VERIF_OUT=/var/tmp/seed-out VERIF_REPO=$WT VERIF_CACHE=/var/tmp/cache-main ./check $pid --tier quick > "$out/check-$pid.log" 2>&1; rc=$?
   keys=$(grep "^VIOLATION" "$out/check-$pid.log" | grep -o "key=[^ ]*" | sort | uniq -c | sort -rn | head -5 | tr '\n' ';')
   echo "check $pid on mutant: exit $rc  $keys" | tee -a "$log"
 done
